@@ -19,6 +19,7 @@ mod importers;
 mod wire;
 mod statement;
 mod record;
+mod keyspki;
 
 pub fn err_name(e: &in_toto::Error) -> String {
     let d = format!("{:?}", e);
@@ -74,6 +75,9 @@ fn main() {
             "wire" => wire::run(sc),
             "statement" => statement::run(sc),
             "record" => record::run(sc),
+            "keyid" => keyspki::run_keyid(sc),
+            "spki" => keyspki::run_spki(sc),
+            "keytable" => keyspki::run_keytable(sc),
             _ => json!({"outcome": "unsupported-kind"}),
         });
         out.push(r);
